@@ -26,4 +26,13 @@ TEXTS = {
                     "search with shrinking, not a proof."),
         level_note=("Trusted: the harness's own rotation/index arithmetic (long double), rapidcheck. nx<=12 per axis, factors<=4, <=3-D; "
                     "points within 1e-4 cell of a face are excluded as the property excludes boundary points.")),
+    "C06": dict(
+        engine="rapidcheck",
+        technique="property-based testing (rapidcheck): generated point sets / neighbourhood parameters vs an executable brute-force definition of the moving neighbourhood; ball-tree k-NN vs sorted brute force",
+        design_ref="DESIGN.md §5 C06",
+        level_text=("Exploration: tens of thousands (quick) to hundreds of thousands (thorough) of generated configurations; the selected neighbourhood is "
+                    "compared as a set with the definition executed by brute force in the harness, k-NN answers with a sorted exhaustive search. "
+                    "Counter-example search with shrinking; no claim beyond the explored classes."),
+        level_note=("Trusted: the harness's own rotation/anisotropic distance and selection logic (harness/common/geo_common.hpp), rapidcheck. "
+                    "n<=80 samples, <=3-D; ties and boundary samples are excluded by construction as the property excludes them.")),
 }
